@@ -24,7 +24,7 @@ CLANG = "clang++-14"
 GXX = "g++"
 LOWER_FLAGS = ["-O1", "-fno-vectorize", "-fno-slp-vectorize", "-fno-unroll-loops", "-fno-exceptions",
                "-mllvm", "-inline-threshold=100000", "-fno-sanitize=vptr,function", "-fsanitize-trap=all",
-               "-Wno-everything", "-fconstexpr-steps=200000000"]
+               "-Wno-everything", "-Werror=c++11-narrowing", "-fconstexpr-steps=200000000"]
 SAN_UB = "-fsanitize=undefined"
 SAN_WRAP = "-fsanitize=undefined,unsigned-integer-overflow"
 
@@ -201,7 +201,7 @@ class Chunk:
             if p.returncode == 0:
                 break
             # map diagnostics to kernels
-            p2 = subprocess.run([CLANG, "-std=" + self.std, "-fsyntax-only", "-ferror-limit=0", "-Wno-everything", "-fconstexpr-steps=200000000"]
+            p2 = subprocess.run([CLANG, "-std=" + self.std, "-fsyntax-only", "-ferror-limit=0", "-Wno-everything", "-Werror=c++11-narrowing", "-fconstexpr-steps=200000000"]
                                 + self.incflags() + [self.src],
                                 stdout=subprocess.PIPE, stderr=subprocess.PIPE, universal_newlines=True)
             dropped = self.map_diagnostics(p2.stderr)
@@ -253,7 +253,7 @@ class Chunk:
                    "-fno-exceptions", "-DAUV_NATIVE"] + self.incflags() + [self.src, "-o", so]
         else:
             san = SAN_WRAP if self.mode == "wrap" else SAN_UB
-            cmd = [CLANG, "-std=" + self.std, "-O1", "-Wno-everything", "-fconstexpr-steps=200000000", "-fPIC", "-shared", "-fno-exceptions", san,
+            cmd = [CLANG, "-std=" + self.std, "-O1", "-Wno-everything", "-Werror=c++11-narrowing", "-fconstexpr-steps=200000000", "-fPIC", "-shared", "-fno-exceptions", san,
                    "-fno-sanitize=vptr,function", "-fsanitize-trap=all", "-DAUV_NATIVE"] + \
                   self.incflags() + [self.src, "-o", so]
         t0 = time.time()
